@@ -11,7 +11,7 @@ use serde_json::json;
 use sm9_core::{pairing, G2Prepared, Group, Gt, G1, G2};
 
 pub fn def() -> PropDef {
-    let mut required = crate::runner::req(&["mode:inputs", "mode:history", "history:clone-used", "history:repeat"]);
+    let mut required = crate::runner::req(&["mode:inputs", "mode:history", "history:clone-used", "history:repeat", "history:clone_from-used", "history:clone_from-other-point"]);
     for a in ["affine", "libjac", "rescaled", "zero-canon", "zero-leftover", "zero-arb"] {
         for b in ["affine", "libjac", "rescaled", "zero-canon", "zero-leftover", "zero-arb"] {
             required.push(format!("cell:{}|{}", a, b));
@@ -23,7 +23,7 @@ pub fn def() -> PropDef {
         genome_len: 1200,
         quick_cases: 10_000,
         thorough_cases: 500_000,
-        rule: "two kinds of case. inputs: (k_P, rep_P, k_Q, rep_Q) over all 6x6 representation cells incl. the three identity forms: the three entry points must return byte-identical values, equal to the value for the canonical presentation (fresh one()*k, normalised) and to Gt::one() when either element is the identity. history: one prepared Q (any representation), 1..8 G1 inputs with independent values/representations, a call order of up to 16 calls with repetitions, clone() taken at random points and used interleaved: every answer must equal pairing(P_i, Q), independent of position and of earlier calls. non-trivial = some operand non-normalised or identity, or >= 2 uses of one prepared value with distinct inputs; distinct by (scalars, constructions, call order)",
+        rule: "two kinds of case. inputs: (k_P, rep_P, k_Q, rep_Q) over all 6x6 representation cells incl. the three identity forms: the three entry points must return byte-identical values, equal to the value for the canonical presentation (fresh one()*k, normalised) and to Gt::one() when either element is the identity. history: one prepared Q (any representation), 1..8 G1 inputs with independent values/representations, a call order of up to 16 calls with repetitions, clone() taken at random points and used interleaved, clone_from() into existing slots from values prepared from Q, from a second point Q2 (identity half of the time) or from other slots: every answer must equal pairing(P_i, Q), independent of position and of earlier calls. non-trivial = some operand non-normalised or identity, or >= 2 uses of one prepared value with distinct inputs; distinct by (scalars, constructions, call order)",
         required,
         enumerate: None,
         enumerate_note: "",
@@ -101,6 +101,10 @@ pub fn check(g: &[u8], ctx: &Ctx) -> Result<Info, Failure> {
             crate::runner::note(json!({"mode": "history", "Q": desc_pt(&q), "inputs": ps.iter().map(desc_pt).collect::<Vec<_>>()}));
         }
         let mut prepared: Vec<G2Prepared> = vec![G2Prepared::from(q.val)];
+        let mut owner: Vec<usize> = vec![0];
+        let mut q2: Option<Pt<GB>> = None;
+        let mut expected2: Vec<Gt> = vec![];
+        let mut clone_from_used = false;
         let calls = 1 + s.choose(16);
         let mut order: Vec<(usize, usize)> = vec![];
         let mut used: std::collections::BTreeSet<usize> = Default::default();
@@ -115,7 +119,35 @@ pub fn check(g: &[u8], ctx: &Ctx) -> Result<Info, Failure> {
                 let src = s.choose(prepared.len());
                 let c = prepared[src].clone();
                 prepared.push(c);
+                owner.push(owner[src]);
                 key.s("clone").n(src as u64);
+            }
+            if s.choose(6) == 0 {
+                // Clone::clone_from into an existing slot (a type may override it): from a fresh value prepared from a second
+                // point Q2 (identity half of the time), from a fresh value of Q, or from another slot
+                if q2.is_none() {
+                    let d2 = if s.bool() { zero.clone() } else { scalar(&mut s).k };
+                    let c2 = s.choose(3);
+                    let qq: Pt<GB> = point(&mut s, &d2, c2)?;
+                    expected2 = ps.iter().map(|p| pairing(p.val, qq.val)).collect();
+                    q2 = Some(qq);
+                }
+                let dst = s.choose(prepared.len());
+                let (srcv, so) = match s.choose(3) {
+                    0 => (G2Prepared::from(q2.as_ref().unwrap().val), 1usize),
+                    1 => (G2Prepared::from(q.val), 0usize),
+                    _ => {
+                        let j = s.choose(prepared.len());
+                        (prepared[j].clone(), owner[j])
+                    }
+                };
+                prepared[dst].clone_from(&srcv);
+                if owner[dst] != so {
+                    info.class("history:clone_from-other-point");
+                }
+                owner[dst] = so;
+                clone_from_used = true;
+                key.s("clone_from").n(dst as u64).n(so as u64);
             }
             let which = s.choose(prepared.len());
             let i = s.choose(n);
@@ -128,6 +160,7 @@ pub fn check(g: &[u8], ctx: &Ctx) -> Result<Info, Failure> {
             order.push((which, i));
             key.n(which as u64).n(i as u64);
             let got = prepared[which].pairing(&ps[i].val);
+            let (q, expected) = if owner[which] == 0 { (&q, &expected) } else { (q2.as_ref().unwrap(), &expected2) };
             let ic = if ps[i].k.is_zero() && q.k.is_zero() { "both".to_string() } else if ps[i].k.is_zero() { format!("g1-{}", ps[i].rep.name()) } else if q.k.is_zero() { format!("g2-{}", q.rep.name()) } else { "none".into() };
             if ic != "none" {
                 ensure!(got == Gt::one(), &format!("G2Prepared::pairing|identity-not-one|{}", ic), "prepared pairing with an identity argument = {} (call {}; P: k={:x} {}; Q: k={:x} {})", gt_hex(&got), step, ps[i].k, ps[i].how, q.k, q.how);
@@ -141,6 +174,9 @@ pub fn check(g: &[u8], ctx: &Ctx) -> Result<Info, Failure> {
         }
         if clone_used {
             info.class("history:clone-used");
+        }
+        if clone_from_used {
+            info.class("history:clone_from-used");
         }
         if repeat {
             info.class("history:repeat");
